@@ -21,19 +21,19 @@ CHECKS = {
 
 CHECKS["C19"] = dict(
     technique="static analysis: whole-package global-write scan (who-may-write inventory), lock-coverage lint of PEP 562 hooks, publish-after-build reachability on a hand-built CFG, import-introspection inventory of shared instances",
-    text="The complete set of functions that write process-wide state (module globals, class attributes, globals()) is computed from the source and must equal the reviewed inventory; every lazy import/publish is under a module-level RLock; no object is mutated after being stored into shared state on any CFG path; cache builders are effect-free; no shared Parser/Generator/Tokenizer instance exists. This is the publication/lock discipline that makes first-use races benign; schedules are not executed.",
+    text="The complete set of functions that write process-wide state (module globals, class attributes, globals()) is computed from the source and must equal the reviewed inventory; every lazy import/publish is under a module-level RLock; no object is mutated after being stored into shared state on any CFG path; cache builders are effect-free; no shared Parser/Generator/Tokenizer instance exists. No module- or class-level instance of a package class that keeps per-call state on itself may exist, and no module in the import closure of a locked lazy hook's target modules may resolve a lazy attribute through that hook (it would take the package lock and importlib's module lock in the opposite order to the hook — a first-use deadlock). This is the publication/lock discipline that makes first-use races benign; schedules are not executed.",
     ref="DESIGN.md section 4 / C19",
 )
 
 CHECKS["C18"] = dict(
     technique="static analysis: memo discovery by pattern, transitive field-read sets, in-place-helper mutation summaries, write=>invalidate forward dataflow on the writer's CFG, def-use memo-key completeness",
-    text="For every dict memo of MappingSchema (discovered from the source) the fields its fill function reads are computed transitively; every method that writes such a field (directly or through an in-place helper such as nested_set/new_trie) must fully invalidate the memo on every CFG path to the return, keyed eviction being rejected while the fill resolves partial names; every parameter read by a memoised computation must be in the lookup key; None is never served as a hit. This is the coherence discipline on which 'answers as a fresh schema would' rests; trie arithmetic is not evaluated.",
+    text="For every dict memo of MappingSchema (discovered from the source) the fields its fill function reads are computed transitively; every method that writes such a field (directly or through an in-place helper such as nested_set/new_trie) must fully invalidate the memo on every CFG path to the return, keyed eviction being rejected while the fill resolves partial names; every parameter read by a memoised computation must be in the lookup key; None is never served as a hit. Lookups must be read-only on the registered state: outside the registration methods nothing stores into or mutates a value obtained from self.mapping / find() / nested_get() (taint from registered state to item stores and mutator calls). This is the coherence discipline on which 'answers as a fresh schema would' rests; trie arithmetic is not evaluated.",
     ref="DESIGN.md section 4 / C18",
 )
 
 CHECKS["C08"] = dict(
     technique="static analysis: who-may-write enumeration of every store to the tree representation with alias-tracked child lists, shape checks of the primitives, cross-reference of the import-introspected shared-Expr inventory with every syntactic reference",
-    text="The parent/arg_key/index/hash invariant is kept by a handful of primitives; the check enumerates every other store to the representation in the whole package (args items, pointer fields, _hash, raw list mutation of child lists incl. local aliases) and requires each to be a primitive, a provably sound form, or a reviewed exception; checks invalidate-before-write in set/append and unfiltered mirroring in __deepcopy__; and classifies every reference to a process-wide Expr instance as read/copy/compare vs embedding. Also: the same `*args` nodes are not embedded twice (on one path or once per loop iteration) without a copy, and leaf classes (is_primitive, whose constructor links no children) are never constructed around a node. Breaking the invariant from outside the primitives requires one of the flagged constructs; index arithmetic inside the primitives is trusted.",
+    text="The parent/arg_key/index/hash invariant is kept by a handful of primitives; the check enumerates every other store to the representation in the whole package (args items, pointer fields, _hash, raw list mutation of child lists incl. local aliases) and requires each to be a primitive, a provably sound form, or a reviewed exception; checks invalidate-before-write in set/append and unfiltered mirroring in __deepcopy__; and classifies every reference to a process-wide Expr instance as read/copy/compare vs embedding. Also: the same `*args` nodes are not embedded twice (on one path or once per loop iteration) without a copy, and leaf classes (is_primitive, whose constructor links no children) are never constructed around a node. A node looked up in a local dict must be copied before it is embedded (typed lint). Breaking the invariant from outside the primitives requires one of the flagged constructs; index arithmetic inside the primitives is trusted.",
     ref="DESIGN.md section 4 / C08",
 )
 
@@ -68,7 +68,7 @@ CHECKS["C10"] = dict(
 )
 CHECKS["C07"] = dict(
     technique="static analysis: pairing/post-domination of the line-break sentinel, injectivity of the substitution, flow confinement of comment text to maybe_comment, block-comment-only emission lint",
-    text="Decides the two explicit clauses of C07 that are structural: pretty output cannot contain the sentinel and plain output cannot be altered by it (single guarded insertion/removal pair, removal before every return, overrides delegate), and comments=False emits no comment text / comments cannot swallow SQL (comment text flows only into maybe_comment, which short-circuits on self.comments; only block comments, sanitised on both markers). In the emitters of text-bearing leaves (literal, identifier, raw/unicode/byte/national string) the text wrapped in quote delimiters must have passed _replace_line_breaks on every path (must-dataflow), so pretty printing never pads the continuation lines of a literal. One genuine defect (sentinel collision with user text under pretty) is recorded as a known finding. Whether pretty/pad/indent/leading_comma/max_text_width affect whitespace only is semantic and not decided.",
+    text="Decides the two explicit clauses of C07 that are structural: pretty output cannot contain the sentinel and plain output cannot be altered by it (single guarded insertion/removal pair, removal before every return, overrides delegate), and comments=False emits no comment text / comments cannot swallow SQL (comment text flows only into maybe_comment, which short-circuits on self.comments; only block comments, sanitised on both markers). In the emitters of text-bearing leaves (literal, identifier, raw/unicode/byte/national string) the text wrapped in quote delimiters must have passed _replace_line_breaks on every path (must-dataflow), so pretty printing never pads the continuation lines of a literal. The separators Generator.indent splits on must all be hidden by _replace_line_breaks (regex AST of the separator compared with the replaced constants). One genuine defect (sentinel collision with user text under pretty) is recorded as a known finding. Whether pretty/pad/indent/leading_comma/max_text_width affect whitespace only is semantic and not decided.",
     ref="DESIGN.md section 4 / C07",
 )
 
@@ -86,7 +86,7 @@ CHECKS["C01"] = dict(
 
 CHECKS["C05"] = dict(
     technique="static analysis: loop-progress dataflow with interprocedural 'productive' summaries (greatest fixpoint over all parser classes) on a hand-built CFG; provenance/consumption analysis of cursor moves; must-dataflow dominance for table lookups; raise-family lint, length-bound and token-existence dataflows, typed definite-assignment lint",
-    text="Every while loop of the recursive-descent parser (all 34 parser classes) and of the tokenizer must reach each back edge having consumed a token (consuming-match conditions, unconditional advances, peek-then-parse, explicit progress checks, productive callees derived by a fixpoint) or be a recognised non-cursor loop; every backward cursor move must target a saved index or be covered by consumption/dispatch credit; every class-table lookup must be dominated by a successful match on the same table; the generator's fall-through and every explicit raise must stay inside the library's error family; constant indexing of function-builder argument lists and of every list-typed local/attribute of the parser, tokenizer and JSON-path parser needs a dominating length fact (length-bound dataflow, one-level caller facts for list parameters); every forward _advance needs evidence that the token it steps over exists; callees that un-read their caller's match are charged back to the caller's loop; locals are definitely assigned (mypy possibly-undefined); the scanner runs only under the TokenError wrapper. This found and led to fixes for five parser hangs, a cursor restored one token too far and seven IndexError/UnboundLocalError leaks. None-dereferences, work bounds and recursion depth are not decided.",
+    text="Every while loop of the recursive-descent parser (all 34 parser classes) and of the tokenizer must reach each back edge having consumed a token (consuming-match conditions, unconditional advances, peek-then-parse, explicit progress checks, productive callees derived by a fixpoint) or be a recognised non-cursor loop; every backward cursor move must target a saved index or be covered by consumption/dispatch credit; every class-table lookup must be dominated by a successful match on the same table; the generator's fall-through and every explicit raise must stay inside the library's error family; constant indexing of function-builder argument lists and of every list-typed local/attribute of the parser, tokenizer and JSON-path parser needs a dominating length fact (length-bound dataflow, one-level caller facts for list parameters); every forward _advance needs evidence that the token it steps over exists; callees that un-read their caller's match are charged back to the caller's loop; locals are definitely assigned (mypy possibly-undefined); cursor-relative subscripts of the token list carry a bound test; no generator handler renders the same child twice in one execution (2^depth work); the scanner runs only under the TokenError wrapper. This found and led to fixes for five parser hangs, a cursor restored one token too far and seven IndexError/UnboundLocalError leaks. None-dereferences, work bounds and recursion depth are not decided.",
     ref="DESIGN.md section 4 / C05",
 )
 
